@@ -2,12 +2,24 @@
 import glob
 import json
 import os
+import re
 from framework import REPO, ROOT, LEAN
 
 TIE = ["Nsq.Tie.LookupSync"]
-PROPS = ["Nsq.Props.C16", "Nsq.Props.C16Ticks"]
+PROPS = ["Nsq.Props.C16", "Nsq.Props.C16Ticks", "Nsq.Props.C16More"]
 KEY_F3 = "negative-length-panic"
 KEY_STALE = "deleted-object-still-registered"
+KEY_NAMES = "precreate-unvalidated-channel-name"
+NAME_RE = re.compile(rb"^[.a-zA-Z0-9_-]+(#ephemeral)?$")
+
+
+def hexset(line):
+    """`{6f6b,-}` -> list of byte strings"""
+    return [b"" if x == "-" else bytes.fromhex(x) for x in line.strip("{}").split(",") if x]
+
+
+def valid_name(b):
+    return 1 <= len(b) <= 64 and NAME_RE.match(b) is not None
 
 
 def parse_views(line):
@@ -47,6 +59,17 @@ def run_stream(ctx, binp, test, label, env, timeout):
     rc, out = ctx.run_cmd([binp, "-test.run", "^%s$" % test, "-test.count=1", "-test.timeout=%ds" % timeout],
                           timeout=timeout + 30, env=e)
     return rc, out, outdir
+
+
+def run_stream_retry(ctx, binp, test, label, env, timeout):
+    """like run_stream; a run in which the HARNESS could not query the real nsqlookupd (line E6-INCONCLUSIVE: loaded box,
+    no free port) says nothing about nsqd: it is repeated once in a fresh process, the first outcome goes to the notes"""
+    rc, out, od = run_stream(ctx, binp, test, label, env, timeout)
+    inc = [l for l in out.splitlines() if l.startswith("E6-INCONCLUSIVE")]
+    if inc:
+        ctx.notes.append("leg %s repeated once: %s" % (label, inc[0][:300]))
+        rc, out, od = run_stream(ctx, binp, test, label, env, timeout)
+    return rc, out, od
 
 
 def diff_stream(ctx, outdir, name, label):
@@ -134,7 +157,8 @@ def judge_sync(ctx, res, label, corr_broken):
                 bad_modes.add(w[1])
             elif w[0] == "heal":
                 bad_modes.discard(w[1])
-            ctx.count_case(o + "|" + i, nontrivial=i not in ("notfound", "bad-op"))
+            # a case is non-trivial when the implementation's answer carries state (a settle line with the views)
+            ctx.count_case(o + "|" + i, nontrivial=i not in ("notfound", "bad-op", "ok"))
             if i != m and first is None:
                 first = (o, i, m, not bad_modes)
         if first is None:
@@ -165,16 +189,18 @@ def run(ctx):
         "net (dial/read/write deadlines of 1 s), go-nsq command encoding, encoding/json of the IDENTIFY reply",
         "translator tools/go2lean kinds `effseq`/`stmts` (order of effects in connectCallback, Command, lookupLoop, "
         "GetTopic; guards of readResponseBounded)",
-        "harness harness/e6/sync_test.go: real NSQD with the verif heartbeat override (100 ms), two scripted fake "
-        "lookupds (real wire protocol, fault injection), one real in-process nsqlookupd restarted on its ports",
+        "harness harness/e6/{sync,more}_test.go: real NSQD with the verif heartbeat override (100 ms), one to three scripted fake "
+        "lookupds (real wire protocol, fault injection), one real nsqlookupd (subprocess) restarted on its ports",
     ]
     ctx.assumptions += [
-        "converges holds for every schedule (no order hypothesis) on the tree with F14 (connectCallback skips exiting "
-        "objects) and F15 (REGISTER/UNREGISTER from the current state of the name); without either it is false "
+        "converges holds for every schedule (no order hypothesis) on the tree with F14 and F15; without either it is false "
         "(converges_false_without_F14 / _F15)",
-        "'within a few heartbeat intervals' is wall-clock: measured by the harness (heartbeat 100 ms; bound "
-        "5 heartbeats + 2.5 s of dial/read deadlines), not proved",
-        "a stalling lookupd delays lookupLoop by the 1 s deadlines per command (measured, not proved)",
+        "converges_with_rejections / no_injection / 'a round trip takes at most 1 s' are about the tree WITH the proposed fixes F36 / F35 / F39; on the "
+        "current tree the clauses are false (converges_false_without_F36, no_injection_false_without_F35, open findings, replayed on every run)",
+        "precreate_partial: a lookupd is asked for a new topic's channels only after an IDENTIFY to it has succeeded (precreate_full_false)",
+        "'within a few heartbeat intervals' in wall-clock terms, 'does not stop publishing/delivering' and 'receive the very first message' are "
+        "measured / tested by the harness, not proved",
+        "nsqlookupd learns of a closed connection (FIN/RST delivered); a silent partition leaves a stale session until the inactivity timeout (C14)",
     ]
     ctx.rule = ("correspondence: (a) readResponseBounded on generated byte streams (valid, short, oversize, negative "
                 "length prefixes) vs the model; (b) generated scripts of topic/channel churn interleaved with lookupd "
@@ -182,7 +208,9 @@ def run(ctx):
                 "fake lookupds and 1 real nsqlookupd: at every `settle` the registrations each lookupd holds for this "
                 "nsqd are compared with the model's and (when all are healthy) with nsqd's own maps; a case = one "
                 "script line + implementation answer; liveness/publish/deliver probe during every fault; hostile "
-                "length prefixes end-to-end in a subprocess; channel pre-creation with first-message delivery")
+                "length prefixes end-to-end in a subprocess; channel pre-creation with first-message delivery: failing "
+                "HTTP sides, which lookupds are asked (identified / TCP down / never identified), hostile channel names, "
+                "an endless answer; replays of the known / fixed findings (refused REGISTER, drip-fed reply, double deletion)")
     gen_ok, _ = ctx.gen("e6_facts")
     if not gen_ok:
         try:
@@ -197,7 +225,7 @@ def run(ctx):
         ctx.leanchecker(PROPS)
     corr_broken = []
     ctx.build_driver("e6")
-    binp = ctx.go_test_binary("nsqd", ["e6/sync_test.go"], "e6")
+    binp = ctx.go_test_binary("nsqd", ["e6/sync_test.go", "e6/more_test.go", "e6/drive_test.go"], "e6")
     if not binp:
         ctx.broken_ties.append("harness e6/sync_test.go does not compile against the current tree")
         corr_broken.append("harness build")
@@ -227,6 +255,27 @@ def run(ctx):
                     ctx.violation(KEY_F3, "readResponseBounded panics (makeslice: len out of range) on `%s`" % ops[idx],
                                   "op: %s\nimpl: %s\nmodel: %s\n" % (ops[idx], a, b))
             ctx.add_sample({"op": ops[0], "impl": impl[0]})
+        # (a2) the real lookupPeer.Command + connectCallback driven one Command at a time against a scripted server that
+        # fails a chosen interaction, vs the interaction-level model fineCommand (audit C33)
+        rc, out, od = run_stream(ctx, binp, "TestVerifE6PeerDrive", "drive", {"VERIF_N": ctx.budget(300, 4000)}, 300)
+        res = diff_stream(ctx, od, "drive", "drive")
+        oracle_lines(ctx, out, "drive")
+        if rc != 0 or not res:
+            ctx.log("drive harness failed rc=%s\n%s" % (rc, out[-1500:]))
+            corr_broken.append("drive harness exit %s" % rc)
+        else:
+            ops, impl, model = res
+            for o, i in zip(ops, impl):
+                ctx.count_case(o + "|" + i, nontrivial=True)
+            for idx, a, b in ctx.diff_lines(impl, model, "drive"):
+                corr_broken.append("correspondence drive (lookupPeer.Command vs fineCommand)")
+                # the property on the implementation's answer: a peer that stays `connected` although the lookupd has
+                # dropped the session is not re-registered by the next Command (only after that one has failed as well)
+                if a.startswith("conn none") and "cmd=nil" not in ops[idx]:
+                    ctx.violation("peer-connected-without-session", "lookupPeer.Command left lp.state connected although the "
+                                  "round trip failed and the lookupd holds no session: `%s`" % ops[idx],
+                                  "op: %s\nimpl: %s\nmodel: %s\n" % (ops[idx], a, b))
+            ctx.add_sample({"op": ops[0], "impl": impl[0]})
         # (b) hostile replies end to end (subprocess: a panic kills the process)
         rc, out, od = run_stream(ctx, binp, "TestVerifE6Hostile", "hostile",
                                  {"VERIF_E6_LENS": "-1,-2147483648,2147483647" if not ctx.thorough()
@@ -245,14 +294,14 @@ def run(ctx):
         scripts = sorted(glob.glob(os.path.join(ROOT, "corpus", "C16", "*.ops")) + glob.glob(os.path.join(ROOT, "corpus", "C16", "known", "*.ops")) +
                          glob.glob(os.path.join(ROOT, "corpus", "C16", "fixed", "*.ops")))
         if scripts:
-            rc, out, od = run_stream(ctx, binp, "TestVerifE6Sync", "known", {"VERIF_SCRIPT": ",".join(scripts)}, 300)
+            rc, out, od = run_stream_retry(ctx, binp, "TestVerifE6Sync", "known", {"VERIF_SCRIPT": ",".join(scripts)}, 300)
             oracle_lines(ctx, out, "known")
             res = diff_stream(ctx, od, "sync", "known")
             if res:
                 judge_sync(ctx, res, "known", corr_broken)
         # (d) generated fault/churn scripts
-        rc, out, od = run_stream(ctx, binp, "TestVerifE6Sync", "sync", {"VERIF_N": ctx.budget(5, 60)},
-                                 ctx.budget(400, 3000))
+        rc, out, od = run_stream_retry(ctx, binp, "TestVerifE6Sync", "sync", {"VERIF_N": ctx.budget(5, 60)},
+                                       ctx.budget(400, 3000))
         oracle_lines(ctx, out, "sync")
         res = diff_stream(ctx, od, "sync", "sync")
         if rc != 0 or not res:
@@ -262,18 +311,30 @@ def run(ctx):
             judge_sync(ctx, res, "sync", corr_broken)
             for x in list(zip(res[0], res[1]))[1:5]:
                 ctx.add_sample({"op": x[0], "impl": x[1][:200]})
-        # (e) pre-creation
-        rc, out, od = run_stream(ctx, binp, "TestVerifE6Precreate", "precreate", {}, 120)
-        oracle_lines(ctx, out, "precreate")
-        res = diff_stream(ctx, od, "precreate", "precreate")
-        if rc != 0 or not res:
-            corr_broken.append("precreate harness exit %s" % rc)
-        else:
+        # (e) pre-creation: lookupds failing over HTTP; which lookupds are asked at all (identified / not, connected /
+        # not: audit C26, seeded C16-m8); hostile channel names (audit C8)
+        for test, label, tmo in (("TestVerifE6Precreate", "precreate", 120), ("TestVerifE6PrecreateWindows", "prewin", 120),
+                                 ("TestVerifE6PrecreateBadNames", "prebad", 120), ("TestVerifE6PrecreateFlood", "preflood", 120)):
+            rc, out, od = run_stream(ctx, binp, test, label, {}, tmo)
+            oracle_lines(ctx, out, label)
+            res = diff_stream(ctx, od, label, label)
+            if rc != 0 or not res:
+                ctx.log("%s harness failed rc=%s\n%s" % (label, rc, out[-1500:]))
+                corr_broken.append("%s harness exit %s" % (label, rc))
+                continue
             for o, i, m in zip(*res):
                 ctx.count_case(o + "|" + i)
-                if i != m:
-                    corr_broken.append("correspondence precreate")
-                    ctx.violation("precreate", "GetTopic pre-created %s, model %s" % (i, m), "%s\n%s\n%s\n" % (o, i, m))
+                if i == m:
+                    continue
+                # model/impl disagreement: evaluate the PROPERTY on the implementation's answer
+                if o.startswith("prex") and any(not valid_name(b) for b in hexset(i)):
+                    bad = [b for b in hexset(i) if not valid_name(b)]
+                    if not ctx.violation(KEY_NAMES, "GetTopic created channels with invalid names %r taken from a lookupd's "
+                                         "/channels answer" % bad, "%s\nimpl : %s\nmodel: %s\n" % (o, i, m)):
+                        continue  # the listed known finding (tree without F35): not a broken correspondence
+                else:
+                    ctx.violation("precreate", "GetTopic pre-created %s, model %s (%s)" % (i, m, o), "%s\n%s\n%s\n" % (o, i, m))
+                corr_broken.append("correspondence " + label)
     if (ctx.broken_ties or corr_broken) and not ctx.violations:
         ctx.broken_without_input(ctx.broken_ties + corr_broken,
                                  "search: %d cases executed on the real code; no oracle failed" % ctx.evaluations)
